@@ -27,7 +27,7 @@ Your task: produce {n} DIFFERENT, independent changes ("mutations") to the torch
 Make the {n} changes differ in kind and in location (different functions / different mechanisms of the property).
 
 For each mutation k = 1..{n} write into /tmp/wtout/{pid}/m<k>/ :
-  - patch.diff : output of `git diff` in the worktree with ONLY that mutation applied (apply with `git apply`; make sure the worktree is clean (`git checkout -- .`) before starting the next mutation and when you finish),
+  - patch.diff : output of `git diff` in the worktree with ONLY that mutation applied (apply with `git apply`; never use `git stash` (it is shared between worktrees; use `git apply -R` or `git checkout -- .`); make sure the worktree is clean before starting the next mutation and when you finish),
   - demo.py : a small self-contained program (run as `PYTHONPATH=<tree> /venv/bin/python demo.py`) that exits 0 and prints PASS on the UNCHANGED tree and exits 1 printing FAIL (with the observed vs expected values) when the mutation is applied. It must judge the property itself (compare against an independent expectation), not merely detect the diff,
   - meta.json : {{"property": "{pid}", "title": "<one line>", "what_breaks": "<which clause of the property fails and how>", "needs_to_manifest": "<the specific input/sequence/crash point/option combination needed>", "files_changed": [...], "tests_passed_with_mutation": <number>, "commands_run": ["..."]}}
 Verify each one yourself: demo passes on the clean tree, fails with the patch, full test suite passes with the patch. Leave the worktree clean at the end. In your final message give, per mutation, a two-line summary. Do not ask questions; decide yourself.""")
